@@ -382,6 +382,14 @@ def check(ctx):
     for rule, key, ok, where, what, detail in sub.got:
         if rule in ('R3.1-accumulation', 'R3.3-matrix-fill'):
             ctx.ob('R6.1-stoichiometry', '%s/%s' % (rule, key), ok, where, what, detail)
+    # the mass-action guard (R6.3) is computed on the (species, multiplicity) table: that table must be the reactant multiset
+    # whatever the order in which the reactants are listed (C01 R1.2) - re-emitted here
+    sub = SubCtx(ctx)
+    c01.check_binding(sub, 'MassActionPropensity')
+    c01.check_binding(sub, 'BimolecularPropensity')
+    for rule, key, ok, where, what, detail in sub.got:
+        if rule == 'R1.2-binding' and key.endswith('/species'):
+            ctx.ob('R6.3-guard-multiset', key, ok, where, what, detail)
     ctx.floor('R6.1-one-column-per-event', 4)
     ctx.floor('R6.2-zero-propensity', 4)
     ctx.floor('R6.3-guard', 4)
